@@ -153,7 +153,104 @@ def pipe_consts(h):
             lean = lean[1:-1]
         body += (f"/-- `pub const {name}: usize = {text};` of {FILE} (= {val}) -/\n"
                  f"def {name} : Nat := {lean}\n\n")
+    body += fd_consts(h) + subst_trim_char(h) + read_all_reserve(h)
     h.write("PipeConsts", body.rstrip("\n") + "\n")
+
+
+# ---- extension round: the other literals of the code that the model types by hand -----------------------
+
+IO_FILE = "yash-env/src/io.rs"
+SUBST_FILE = "yash-semantics/src/expansion/initial/command_subst.rs"
+RW_FILE = "yash-env/src/system/concurrency/rw_all.rs"
+
+
+def int_literal(h, where, text):
+    """value of a Rust integer literal (any radix, `_` separators, optional integer type suffix)"""
+    m = re.fullmatch(r"\s*(0[xX][0-9a-fA-F_]+|0[oO][0-7_]+|0[bB][01_]+|[0-9][0-9_]*?)(?:_?[iu](?:8|16|32|64|128|size))?\s*", text)
+    if not m:
+        h.fail(f"{where}: `{text.strip()}` is not an integer literal")
+    lit = m.group(1).replace("_", "")
+    return int(lit[2:], 8) if lit.lower().startswith("0o") else int(lit, 0)
+
+
+def fd_consts(h):
+    """`pub const STDIN: Fd = Fd(0);` … and `pub const MIN_INTERNAL_FD: Fd = Fd(10);` of yash-env/src/io.rs
+    (the constructor may be spelled `Fd(..)` or `Self(..)`, the type `Fd` or `Self`)"""
+    src = h.read(IO_FILE)
+    out = ""
+    for name in ["STDIN", "STDOUT", "STDERR", "MIN_INTERNAL_FD"]:
+        ms = re.findall(r"\bpub\s+const\s+" + name + r"\s*:\s*(?:Fd|Self)\s*=\s*(?:Fd|Self)\s*\(([^()]*)\)\s*;", src)
+        if len(ms) != 1:
+            h.fail(f"anchor not found (or not unique): pub const {name}: Fd = Fd(<integer>) in {IO_FILE}")
+        val = int_literal(h, f"const {name} in {IO_FILE}", ms[0])
+        out += f"/-- `pub const {name}: Fd = Fd({ms[0].strip()});` of {IO_FILE} -/\ndef {name} : Nat := {val}\n\n"
+    return out
+
+
+CHAR_ESCAPES = {"n": 10, "t": 9, "r": 13, "0": 0, "\\": 92, "'": 39, '"': 34}
+
+
+def char_literal(h, where, text):
+    """code point of a Rust char literal or of a string literal with exactly one character"""
+    t = text.strip()
+    m = re.fullmatch(r"'(.*)'", t, re.S) or re.fullmatch(r'"(.*)"', t, re.S)
+    if not m:
+        h.fail(f"{where}: `{t}` is not a character or string literal")
+    body = m.group(1)
+    if len(body) == 1 and body != "\\":
+        return ord(body)
+    m2 = re.fullmatch(r"\\(.)", body, re.S)
+    if m2 and m2.group(1) in CHAR_ESCAPES:
+        return CHAR_ESCAPES[m2.group(1)]
+    m2 = re.fullmatch(r"\\x([0-7][0-9a-fA-F])", body)
+    if m2:
+        return int(m2.group(1), 16)
+    m2 = re.fullmatch(r"\\u\{([0-9a-fA-F_]{1,8})\}", body)
+    if m2:
+        return int(m2.group(1).replace("_", ""), 16)
+    h.fail(f"{where}: cannot translate the literal `{t}` (exactly one character expected)")
+
+
+def subst_trim_char(h):
+    """the character `expand_common` removes from the end of a command substitution's output:
+    `result.trim_end_matches('\\n')` (a char literal, a one-character string literal, or a const of the
+    file defined by such a literal)"""
+    src = h.read(SUBST_FILE)
+    code = "\n".join(l for l in src.split("\n") if not l.strip().startswith("//"))
+    cut = code.find("#[cfg(test)]")
+    if cut >= 0:
+        code = code[:cut]
+    ms = re.findall(r"\.trim_end_matches\(\s*([^()]*?)\s*\)", code)
+    if len(ms) != 1:
+        h.fail(f"anchor not found (or not unique): .trim_end_matches(<char>) in {SUBST_FILE}")
+    arg = ms[0]
+    if re.fullmatch(r"[A-Z_][A-Z_0-9]*", arg):
+        m = re.search(r"\bconst\s+" + arg + r"\s*:\s*(?:char|&(?:'static\s+)?str)\s*=\s*([^;]+);", code)
+        if not m:
+            h.fail(f"{SUBST_FILE}: trim_end_matches({arg}): no `const {arg}: char = …;` in the file")
+        arg = m.group(1)
+    val = char_literal(h, f"trim_end_matches in {SUBST_FILE}", arg)
+    return (f"/-- the character of `result.trim_end_matches({ms[0]})` in `expand_common` of {SUBST_FILE} -/\n"
+            f"def SUBST_TRIM_CHAR : Nat := {val}\n\n")
+
+
+def read_all_reserve(h):
+    """the buffer `read_all_to` offers to each `read`: `buffer.reserve(0x400_usize.saturating_sub(unused))`
+    (an integer literal or a const of the file)"""
+    src = h.read(RW_FILE)
+    code = "\n".join(l for l in src.split("\n") if not l.strip().startswith("//"))
+    ms = re.findall(r"\.reserve\(\s*\(?\s*([A-Za-z0-9_]+?)\s*\)?\s*\.saturating_sub\(", code)
+    if len(ms) != 1:
+        h.fail(f"anchor not found (or not unique): buffer.reserve(<n>.saturating_sub(…)) in {RW_FILE}")
+    arg = ms[0]
+    if re.fullmatch(r"[A-Z_][A-Z_0-9]*", arg):
+        m = re.search(r"\bconst\s+" + arg + r"\s*:\s*usize\s*=\s*([^;]+);", code)
+        if not m:
+            h.fail(f"{RW_FILE}: reserve({arg}…): no `const {arg}: usize = …;` in the file")
+        arg = m.group(1)
+    val = int_literal(h, f"reserve(…) in {RW_FILE}", arg)
+    return (f"/-- `buffer.reserve({ms[0]}.saturating_sub(unused))` in `read_all_to` of {RW_FILE}: the least room\n"
+            f"    offered to each `read` -/\ndef READ_ALL_RESERVE : Nat := {val}\n\n")
 
 
 TABLES = {"PipeConsts": pipe_consts}
